@@ -9,6 +9,7 @@ import (
 	"encoding/json"
 	"fmt"
 	"io"
+	"net"
 	"net/http"
 	"net/http/httptest"
 	"net/url"
@@ -16,6 +17,7 @@ import (
 	"path/filepath"
 	"strings"
 	"sync"
+	"syscall"
 	"time"
 
 	"github.com/golang/snappy"
@@ -145,6 +147,9 @@ type reqSpec struct {
 	// request of a connection the same *tls.ConnectionState, certificates
 	// slice included).
 	Conn *tls.ConnectionState
+	// ClientGone: the caller has gone away by the time the answer is written:
+	// every write of the response body fails (connection reset).
+	ClientGone bool
 	// AcceptEncoding, when set, is what the caller says it accepts; a
 	// response that comes back encoded is decoded (gzip by the standard
 	// library, the framed snappy format by the snappy package) and a body
@@ -156,9 +161,11 @@ type respRec struct {
 	// DecodeErr is set when the response body does not decode in the content
 	// encoding the response declares.
 	DecodeErr string
-	Code      int
-	Header    http.Header
-	Body      []byte
+	// WriteFailed: the server tried to send a body to a caller that was gone.
+	WriteFailed bool
+	Code        int
+	Header      http.Header
+	Body        []byte
 }
 
 type hookWriter struct {
@@ -166,6 +173,9 @@ type hookWriter struct {
 	cb      func(int)
 	fired   bool
 	yielded bool
+	// gone: the peer is gone, body writes fail; writeFailed: one was attempted
+	gone        bool
+	writeFailed bool
 }
 
 func (h *hookWriter) Write(b []byte) (int, error) {
@@ -183,6 +193,10 @@ func (h *hookWriter) Write(b []byte) (int, error) {
 	if !h.yielded {
 		h.yielded = true
 		simhook.Yield("net:response-write")
+	}
+	if h.gone {
+		h.writeFailed = true
+		return 0, &net.OpError{Op: "write", Net: "tcp", Err: os.NewSyscallError("write", syscall.ECONNRESET)}
 	}
 	return h.ResponseRecorder.Write(b)
 }
@@ -263,12 +277,12 @@ func serve(h http.Handler, rs reqSpec) *respRec {
 		req = req.WithContext(ctx)
 	}
 	rec := httptest.NewRecorder()
-	hw := &hookWriter{ResponseRecorder: rec, cb: rs.OnFirstByte}
+	hw := &hookWriter{ResponseRecorder: rec, cb: rs.OnFirstByte, gone: rs.ClientGone}
 	h.ServeHTTP(hw, req)
 	// the handler may have been woken by timers, contexts or peer goroutines:
 	// re-enter the schedule before the caller touches the tape again
 	simhook.Yield("net:response")
-	out := &respRec{Code: rec.Code, Header: rec.Result().Header, Body: rec.Body.Bytes()}
+	out := &respRec{Code: rec.Code, Header: rec.Result().Header, Body: rec.Body.Bytes(), WriteFailed: hw.writeFailed}
 	if rs.AcceptEncoding != "" {
 		var zr io.Reader
 		var err error
